@@ -52,9 +52,9 @@ func TestSim(t *testing.T) {
 // run has been evaluated). The driver stops a worker after 3 recorded violations, so the rate is
 // kept low enough that the known candidate does not cut the exploration short.
 const (
-	c13ZeroRateQuick    = 4000
+	c13ZeroRateQuick    = 6000
 	c13ZeroRateThorough = 100000
-	c13PyRate           = 50
+	c13PyRate           = 200
 	c13MaxPayload       = 2040
 )
 
@@ -705,7 +705,11 @@ func c13Post(x *hysim.Run) {
 	for _, s := range w.samples {
 		fmt.Fprintf(&in, "{\"k\":\"%s\",\"w\":\"%s\",\"p\":\"%s\"}\n", kh, hex.EncodeToString(s.wire), hex.EncodeToString(s.plain))
 	}
-	cmd := exec.Command("python3", c13PyScript())
+	py := "/usr/bin/python3" // not a version-manager shim: start-up cost matters
+	if _, err := os.Stat(py); err != nil {
+		py = "python3"
+	}
+	cmd := exec.Command(py, "-S", "-E", c13PyScript())
 	cmd.Stdin = &in
 	out, err := cmd.CombinedOutput()
 	if err != nil {
